@@ -34,7 +34,7 @@ def headStr : Node → String
   | .raw b => s!"raw:{hx b}"
   | .tpl p ms ne pre suf => s!"tpl:{hx p}:mods={modsStr ms}:noesc={b01 ne}:pre={hx pre}:suf={hx suf}"
   | .cond c _ => s!"cond:l={hx c.l}:r={hx c.r}:sl={b01 c.staticL}:sr={b01 c.staticR}:op={opStr c.op}:hlp={hx c.hlp}{argsStr c.hlpArg}:lc={c.lc}"
-  | .condOK => "condOK"
+  | .condOK k _ => s!"condOK:v={hx k.varV}:ok={hx k.varOK}:ins={hx k.ins}:l={hx k.cd.l}:r={hx k.cd.r}:sl={b01 k.cd.staticL}:sr={b01 k.cd.staticR}:op={opStr k.cd.op}:hlp={hx k.cd.hlp}{argsStr k.cd.hlpArg}"
   | .condTrue _ => "true"
   | .condFalse _ => "false"
   | .rloop s _ => s!"rloop:key={hx s.key}:val={hx s.val}:src={hx s.src}:sep={hx s.sep}"
